@@ -1,0 +1,54 @@
+//! Verification hooks for the numeric helper functions. Only compiled with
+//! `--cfg rosu_pp_verif`. Wrappers only; no behaviour is added or changed.
+
+use crate::util::{difficulty, float_ext::FloatExt, special_functions};
+
+/// [`special_functions::erf`]
+pub fn erf(x: f64) -> f64 {
+    special_functions::erf(x)
+}
+
+/// [`special_functions::erf_inv`]
+pub fn erf_inv(z: f64) -> f64 {
+    special_functions::erf_inv(z)
+}
+
+/// [`difficulty::reverse_lerp`]
+pub fn reverse_lerp(x: f64, start: f64, end: f64) -> f64 {
+    difficulty::reverse_lerp(x, start, end)
+}
+
+/// [`difficulty::smoothstep`]
+pub fn smoothstep(x: f64, start: f64, end: f64) -> f64 {
+    difficulty::smoothstep(x, start, end)
+}
+
+/// [`difficulty::smootherstep`]
+pub fn smootherstep(x: f64, start: f64, end: f64) -> f64 {
+    difficulty::smootherstep(x, start, end)
+}
+
+/// [`difficulty::logistic`]
+pub fn logistic(x: f64, midpoint_offset: f64, multiplier: f64, max_value: Option<f64>) -> f64 {
+    difficulty::logistic(x, midpoint_offset, multiplier, max_value)
+}
+
+/// [`difficulty::logistic_exp`]
+pub fn logistic_exp(exp: f64, max_value: Option<f64>) -> f64 {
+    difficulty::logistic_exp(exp, max_value)
+}
+
+/// [`difficulty::bell_curve`]
+pub fn bell_curve(x: f64, mean: f64, width: f64, multiplier: Option<f64>) -> f64 {
+    difficulty::bell_curve(x, mean, width, multiplier)
+}
+
+/// [`FloatExt::lerp`] on `f64`
+pub fn lerp(value1: f64, value2: f64, amount: f64) -> f64 {
+    <f64 as FloatExt>::lerp(value1, value2, amount)
+}
+
+/// [`FloatExt::eq`] on `f64`
+pub fn float_eq(a: f64, b: f64) -> bool {
+    FloatExt::eq(a, b)
+}
